@@ -18,6 +18,7 @@ structure NodeSnap where
   par : List (Nat × Nat) := []
   nh : Int := 0
   obs : Nat := 0
+  ch : List Nat := []
 deriving Repr, Inhabited
 
 structure ActionRec where
@@ -57,7 +58,10 @@ def parseSnap (payload : String) : Option NodeSnap := do
   pure { id := id, kind := kind, h := geti "h", rch := geti "rch", r := geti "r", c := geti "c",
          valid := (kvs.lookup "valid") == some "1", nec := (kvs.lookup "nec") == some "1",
          val := (kvs.lookup "val").getD "-", par := parsePar ((kvs.lookup "par").getD "[]"),
-         nh := geti "nh", obs := (((kvs.lookup "obs").bind String.toNat?).getD 0) }
+         nh := geti "nh", obs := (((kvs.lookup "obs").bind String.toNat?).getD 0),
+         ch := (let t := (kvs.lookup "ch").getD "[]"
+                let inner := ((t.drop 1).dropEnd 1).toString
+                if inner.isEmpty then [] else (inner.splitOn ",").filterMap String.toNat?) }
 
 def parseReads (payload : String) : List (Nat × String) :=
   -- `o0=ok 4 o1=err NeverStabilised o2=gone`
